@@ -9,9 +9,13 @@
    hands out next, next+1, ... in document order to exactly the elements outside the reserved range.
    The whole of reassignIds is proved to change IDs only, for every outcome (C14_reassign_changes_ids_only: Hoare-style
    traversal of the complete function in Heap/ReassignFull.v, including the stream / channel / track format section
-   and the track UID section).  Partial (suffix _partial): which numbers pack, stream, channel, track formats and track
-   UIDs receive, uniqueness after the call and idempotence are decided by the differential run only. *)
-From Adm Require Import Heap.Exec Heap.More Heap.Frame Heap.Reassign Heap.ReassignFull Heap.WF.
+   and the track UID section).  Uniqueness after the call: C14_ids_unique_after_reassign (Heap/UniqReassign.v) - a
+   successful reassignIds on a document whose listed elements carry unique IDs leaves them unique (and the membership
+   lists consistent), because every ID it hands out goes through set(Id), which refuses an ID in use; block formats
+   follow their channel format by the C11 invariant (Heap/Labels.v covers reassignIds).
+   Partial (suffix _partial): which numbers pack, stream, channel, track formats and track UIDs receive, and
+   idempotence, are decided by the differential run only. *)
+From Adm Require Import Heap.Exec Heap.More Heap.Frame Heap.Reassign Heap.ReassignFull Heap.WF Heap.WF Heap.Uniq Heap.UniqReassign Heap.BlockIds Heap.Labels.
 Local Open Scope N_scope.
 
 Theorem C14_set_id_changes_ids_only : forall h i s s' r e, get_elem s h = Some e ->
@@ -81,3 +85,14 @@ Print Assumptions C14_reassign_changes_ids_only.
 Theorem C14_reassign_on_well_formed_states : forall d s s' r, WF s -> reassign_ids d s = (s', r) -> ids_only s s'.
 Proof. exact reassign_ids_wf. Qed.
 Print Assumptions C14_reassign_on_well_formed_states.
+
+(* uniqueness after the call *)
+Theorem C14_ids_unique_after_reassign : forall d s s' u, reassign_ids d s = (s', inl u) -> MemOk s -> Uniq s ->
+  MemOk s' /\ Uniq s'.
+Proof. exact reassign_ids_keeps_unique. Qed.
+Print Assumptions C14_ids_unique_after_reassign.
+
+(* block formats follow their channel format after the call (the labelling of C11 is kept by reassignIds) *)
+Theorem C14_blocks_follow_after_reassign : forall d s s' u, reassign_ids d s = (s', inl u) -> Lab s -> Lab s'.
+Proof. exact (fun d s s' u H L => lpres_reassign_ids d s s' u H L). Qed.
+Print Assumptions C14_blocks_follow_after_reassign.
